@@ -26,6 +26,7 @@ import json
 import multiprocessing as mp
 import os
 import random
+import re
 import threading
 
 from ..lib import cbuild, tlc
@@ -37,6 +38,10 @@ PID = 'E06'
 # Mismatches on the unchanged tree that were triaged as genuine defects of skoolkit and reported to the lead. Until the lead records
 # them in known_findings.json they print CANDIDATE-FINDING and do not fail the check (VERIF_E06_STRICT=1: they do).
 CANDIDATES = {
+    'rom-file:ignored-on-128k':
+        "trace.py --rom FILE on a 128K / +2 machine ('128', '+2' or a 128K snapshot): 'Patch in a ROM at address 0 from this file' has no "
+        "effect, the machine's own ROM stays. E.g. a 16K file starting 3E 07 00 (LD A,7 ; NOP): `trace.py --rom my.rom -s 0 -m 2 -v -n 48` "
+        "lists '$0000 LD A,$07', the same with 128 lists '$0000 DI ; $0001 LD BC,$692B' (the 128K ROM).",
     'state-7ffd:c-simulator-keeps-file-paging':
         "trace.py --state 7ffd=N FILE (128K snapshot whose own 0x7ffd value pages another RAM bank), default C simulator: the option is "
         "recorded (the snapshot written afterwards says 7ffd=N) but the C simulator keeps executing with the RAM bank / ROM paged in by "
@@ -49,11 +54,13 @@ CANDIDATES = {
         "'Instructions executed: 6', with --python 4 (both 49 T-states); with --python -m 100 it is 6 again.",
 }
 STRICT = os.environ.get('VERIF_E06_STRICT') == '1'
-NCASES = {'quick': 420, 'thorough': 11000}
+NCASES = {'quick': 300, 'thorough': 6000}
 
 
 def candidate_of(c, clause):
     tags = c.get('tags', ())
+    if 'rom-file-128k' in tags:
+        return 'rom-file:ignored-on-128k'
     if 'state-7ffd-differs-from-file' in tags and (c['impl'] == 'c' or clause == 'python-and-c-differ'):
         return 'state-7ffd:c-simulator-keeps-file-paging'
     if 'fast-loops' in tags and c['impl'] == 'py' and clause == 'stats-instructions':
@@ -118,6 +125,10 @@ def drive(tier, sd, wd, n, first=0):
     return cases
 
 
+_VERDICT = re.compile(r'<<\s*"VERDICT",\s*(\d+),\s*"([^"]*)"\s*>>')
+_STAT = re.compile(r'<<\s*"STAT",\s*(\d+),\s*(\d+),\s*(\d+),\s*(\d+),\s*(\d+)\s*>>')
+
+
 def judge(rep, cases, wd, name='TraceJudge'):
     """-> verdicts (one clause per case), stats [(ops, nint, nhalt, npage) or None]"""
     verdicts, stats = [None] * len(cases), [None] * len(cases)
@@ -133,16 +144,15 @@ def judge(rep, cases, wd, name='TraceJudge'):
         if r.violated or not r.ok:
             raise MachineryError('%s: TLC did not complete\n%s' % (name, r.out[-3000:]))
         rep.add_tlc(r, '%s[%d:%d]' % (name, lo, lo + len(part)), traces=len(part))
-        for n, rest in r.notes:
-            if n == 'VERDICT' and rest:
-                tid, _, cl = rest.partition(', ')
-                i = lo + int(tid) - 1
-                if verdicts[i] is not None:
-                    raise MachineryError('%s: two verdicts for case %d' % (name, i))
-                verdicts[i] = cl.strip('"')
-            elif n == 'STAT' and rest:
-                q = [int(x) for x in rest.split(', ')]
-                stats[lo + q[0] - 1] = tuple(q[1:])
+        # (TLC wraps long tuples over several lines: parsed from the raw output, not from r.notes)
+        for mm in _VERDICT.finditer(r.out):
+            i = lo + int(mm.group(1)) - 1
+            if verdicts[i] is not None:
+                raise MachineryError('%s: two verdicts for case %d' % (name, i))
+            verdicts[i] = mm.group(2)
+        for mm in _STAT.finditer(r.out):
+            q = [int(x) for x in mm.groups()]
+            stats[lo + q[0] - 1] = tuple(q[1:])
         os.remove(path)
     missing = [i for i, v in enumerate(verdicts) if v is None]
     if missing:
@@ -212,7 +222,7 @@ def run(tier):
     sd = seed()
     cbuild.build()
     box = {}
-    ths = model_checks(box, 3 if tier == 'quick' else 4)
+    ths = model_checks(box, 2 if tier == 'quick' else 4)
     cases = drive(tier, sd, wd, NCASES[tier])
     log('E06: %d cases driven in %.1fs' % (len(cases), timer.s()))
     verdicts, stats = judge(rep, cases, wd)
@@ -230,6 +240,16 @@ def run(tier):
         if v.startswith('harness:'):
             raise MachineryError('E06: generator and specification disagree: %s %s' % (v, small(c)))
         if v.startswith('drift:'):
+            # a soft case that fails for a reason already known as a candidate defect is that candidate, not drift
+            base = v.split(':', 2)[2] if v.count(':') >= 2 and v.split(':')[1] == c['soft'] else None
+            ck = candidate_of(c, base) if base else None
+            if base == 'python-and-c-differ' and ck is None and 1 in by_idx[c['idx']]:
+                c2, v2 = by_idx[c['idx']][1]
+                ck = candidate_of(c2, v2.split(':', 2)[2] if v2.startswith('drift:') and v2.count(':') >= 2 else v2) if v2 != 'ok' else None
+            if ck and ck not in rep.known and not STRICT:
+                cand[ck] += 1
+                cand_ex.setdefault(ck, '%s: %s' % (v, ' '.join(c['cmd'])[:700]))
+                continue
             drift[v[6:]] += 1
             if not STRICT:
                 continue
@@ -289,6 +309,7 @@ def run(tier):
         st['poke-bank'] += int(any(o['bank'] >= 0 for o in c['op']['pokes']))
         st['poke-range'] += int(any(o['b'] > o['a'] for o in c['op']['pokes']))
         st['sna-stack-pc'] += c['in']['stackpc']
+        st['int-window-edge'] += int('int-edge' in c['features'])
         if c['snap'].get('has'):
             st['dump:' + ('szx' if c['snap']['szx'] else 'z80')] += 1
             st['dump-memory-diff'] += int(bool(c['snap']['diff']))
@@ -296,6 +317,7 @@ def run(tier):
             st['instructions'] += s[0]
             st['interrupt-accepted'] += int(s[1] > 0)
             st['halt'] += int(s[2] > 0)
+            st['halt-never-ends'] += int(s[2] > 3 and not c['op']['ints'])
             st['paging'] += int(s[3] > 0)
             st['stopped-in-handler'] += int(s[1] > 0 and c['stop']['kind'] == 'addr')
         if c['soft']:
@@ -303,14 +325,14 @@ def run(tier):
     need = ['kind:z80', 'kind:szx', 'kind:sna', 'kind:bin', 'kind:blank', 'machine:48', 'machine:128', 'machine:128+2', 'stop:addr', 'stop:ops',
             'stop:tstates', 'mode:same', 'mode:same-ops-t', 'mode:start=stop', 'impl:c', 'impl:py', 'vlevel:0', 'vlevel:1', 'vlevel:2', 'cmio',
             'decimal', 'custom-line', 'stats', 'map', 'rom-file', 'start-option', 'pokes', 'poke-xor', 'poke-add', 'poke-bank', 'poke-range',
-            'sna-stack-pc', 'dump:szx', 'dump:z80', 'dump-memory-diff', 'interrupt-accepted', 'halt', 'paging', 'soft:start-equals-stop',
+            'sna-stack-pc', 'dump:szx', 'dump:z80', 'dump-memory-diff', 'interrupt-accepted', 'int-window-edge', 'halt', 'halt-never-ends', 'paging', 'soft:start-equals-stop',
             'soft:simulator-defaults']
     empty = [k for k in need if not st[k]]
     if not rep.violations:
         if empty:
             raise MachineryError('E06: vacuous classes: %s' % empty)
-        if st['ok'] < 0.85 * len(cases):
-            raise MachineryError('E06: only %d of %d cases passed without a verdict (%s %s)' % (st['ok'], len(cases), dict(drift), dict(undefined)))
+        if st['ok'] + sum(drift.values()) + sum(cand.values()) < 0.9 * len(cases):
+            raise MachineryError('E06: only %d of %d cases were judged ok or drift (%s %s)' % (st['ok'], len(cases), dict(drift), dict(undefined)))
         if sum(undefined.values()) > len(cases) // 50:
             raise MachineryError('E06: %d runs left the modelled domain' % sum(undefined.values()))
 
